@@ -217,6 +217,13 @@ def judge(obs, cfg, mode, point, ref, got, stages, types, udir):  # noqa: C901, 
     for x in sorted((x for x in got["recs"] if x["kind"] == "end"), key=lambda x: x["iter"]):
         last_pos[x["tag"]] = x["pos"]
     obs.count("final_states_checked", len(got["finals"]))
+    if mode in ("seq", "seq-userdir", "par", "par-userdir", "par-signal-parent"):
+        stage_start = ([0] + bounds)[bounds.index(stage_end)]
+        ran = {t for (t, i) in started if stage_start <= i < stage_end}
+        returned = {ft for ft, _p, _m in got["finals"]}
+        if ran - returned:
+            obs.violation(f"final-state-missing:{mode}", f"chains {sorted(ran - returned)} ran iterations in the interrupted stage but no final "
+                                                         f"state was returned for them (returned: {sorted(returned)}); {where}")
     if len(got["finals"]) > n_chain:
         obs.violation(f"final-states-count:{mode}", f"{len(got['finals'])} final states for {n_chain} chains; {where}")
     for ftag, pos, mom in got["finals"]:
